@@ -852,7 +852,7 @@ def overlap_add(blk_sig, size=None, hop=None, wnd=None, normalize=True):
 
   # Overlap-add algorithm
   add = operator.add
-  mem = [0.] * size
+  mem = [0] * size # Integers: exact samples (int, Fraction, ...) stay exact
   s_h = size - hop
   for blk in xmap(iter, blk_sig):
     mem[:s_h] = xmap(add, mem[hop:], blk)
